@@ -1,7 +1,7 @@
 //! C05: the real `RetryLayer` over the scripted inner service.
 //!
 //! header: `retry [max=N] [dyn=1] [retry=<bitmask of retryable error kinds>]
-//!                [bo=fixed:<ms> | exp:<ms> | fn:<ms>,<ms>,…]
+//!                [bo=fixed:<d> | exp:<d> | fn:<d>,<d>,…] [unit=us]
 //!                [budget=bucket:<max>:<initial> | aimd:<min>:<max>:<deposit>:<withdraw>:<q>]`
 //!   * `max` absent      → the builder's default (3); `dyn=1` → `max_attempts_fn(|req| req.key)`,
 //!     the request carries `ma=<n>` (default: `max`, or 3)
@@ -9,6 +9,8 @@
 //!     iff bit k of the mask is set
 //!   * `bo` absent       → the builder's default (exponential, 100 ms); `fn:` is a custom
 //!     `IntervalFunction` (table look-up, 0 beyond the table)
+//!   * `unit=us`         → the back-off values `<d>` are microseconds (default: milliseconds); a value `max` is
+//!     `Duration::MAX` in either unit (tokio: an unrepresentable deadline = far future). The op clock stays in ms.
 //!   * `aimd … q`        → decrease factor q/4 (dyadic, so `limit as f64 * factor` is exact)
 use crate::world::*;
 use std::sync::Arc;
@@ -27,6 +29,19 @@ fn nums(s: &str, sep: char) -> Vec<u64> {
     s.split(sep).filter(|x| !x.is_empty()).map(|x| x.parse().unwrap_or(0)).collect()
 }
 
+/// one configured back-off value: a number of ms (µs with `unit=us`), or `max` = `Duration::MAX`
+fn dur(s: &str, us: bool) -> Duration {
+    if s == "max" {
+        return Duration::MAX;
+    }
+    let n: u64 = s.parse().unwrap_or(0);
+    if us {
+        Duration::from_micros(n)
+    } else {
+        Duration::from_millis(n)
+    }
+}
+
 impl Adapter {
     pub fn new(kv: &Kv) -> Adapter {
         let mut b = RetryLayer::<Req, IErr>::builder();
@@ -41,13 +56,14 @@ impl Adapter {
         }
         if let Some(bo) = kv.get("bo") {
             let (kind, arg) = bo.split_once(':').unwrap_or((bo, "0"));
+            let us = kv.get("unit") == Some("us");
             match kind {
-                "fixed" => b = b.fixed_backoff(Duration::from_millis(arg.parse().unwrap_or(0))),
-                "exp" => b = b.exponential_backoff(Duration::from_millis(arg.parse().unwrap_or(0))),
+                "fixed" => b = b.fixed_backoff(dur(arg, us)),
+                "exp" => b = b.exponential_backoff(dur(arg, us)),
                 _ => {
-                    let table = nums(arg, ',');
+                    let table: Vec<Duration> = arg.split(',').filter(|x| !x.is_empty()).map(|x| dur(x, us)).collect();
                     b = b.backoff(FnInterval::new(move |attempt: usize| {
-                        Duration::from_millis(table.get(attempt).cloned().unwrap_or(0))
+                        table.get(attempt).cloned().unwrap_or(Duration::ZERO)
                     }));
                 }
             }
